@@ -6,6 +6,7 @@ exact membership of the Origin in the comma-split configuration, grants = config
 import itertools, unicodedata
 from vlib import common as C
 
+DRIVERS = ['Cors']   # model driver files this check runs: scopes translator failures to the tables they (and the proofs) import
 TRUSTED = ['Rust std: env::var (Err for absent or non-Unicode), str::parse::<bool>, str::split, Vec::contains, [String]::join (modelled in Rws.Cors)',
            'Rust std str::to_lowercase: per-scalar tables probed from the toolchain by translator/gens/cors.py (Rws.Gen.Unicode); algorithm (UTF-8, Final_Sigma) hand-written in Rws.Unicode and tied by this differential run (every scalar value in thorough)',
            'harness sets/removes the RWS_CONFIG_CORS_* process variables per case and restores them (single-threaded codec loop)']
